@@ -1,6 +1,1162 @@
-//! placeholder: filled in by the check that owns this sub-command
-use serde_json::{Value, json};
+//! `vh conc ...` — C16: parsed code and values shared between OS threads.
+//!
+//!   replay <cases.ndjson> <reps>            spec -> impl: every case of MC_Conc's program space is
+//!                                           run on real threads; the observed outcome must be one
+//!                                           the specification's atomic reference allows
+//!   forced <cases.ndjson>                   spec -> impl: every serial order TLC enumerated is
+//!                                           forced with gates and must give exactly its outcome
+//!   record <dir> <small> <T> <K> <big> <T> <K>
+//!                                           impl -> spec: stress histories with schedule
+//!                                           perturbation; writes conc_trace.ndjson (calls + the
+//!                                           under-lock Write events, for Trace_Conc) and
+//!                                           conc_lin.ndjson (calls only, for Trace_ConcLin)
+//!   solo <threads> <reps>                   runs that share no cell: one Code, many threads,
+//!                                           compared with the sequential run of the same Code
+//!   render <millis>                         F17: render a self-containing cell while assigning it
+//!
+//! Every concurrent run is watched: if the threads do not finish within VERIF_CONC_WATCHDOG_S
+//! seconds (default 30) the run is reported as a deadlock and the command returns at once.
+use crate::util::{Rng, catch, read_ndjson};
+use serde_json::{Map, Value, json};
+use simplesl::{
+    Code, Interpreter,
+    function::Function,
+    variable::{Mut, ReturnType, Variable},
+    verif::{self, Event},
+};
+use std::{
+    cell::{Cell, RefCell},
+    collections::{BTreeMap, HashMap, HashSet},
+    io::Write as _,
+    rc::Rc,
+    sync::{
+        Arc, Barrier, Condvar, Mutex,
+        atomic::{AtomicBool, AtomicU8, AtomicU64, Ordering},
+        mpsc,
+    },
+    time::{Duration, Instant},
+};
 
-pub fn run(_args: &[String]) -> Value {
-    json!({"error": "not implemented"})
+// ------------------------------------------------------------------------------------------
+// schedule perturbation and gates (the process-wide callback of simplesl::verif::set_perturb)
+// ------------------------------------------------------------------------------------------
+
+const TABLE_LEN: usize = 4096;
+static TABLE: [AtomicU8; TABLE_LEN] = [const { AtomicU8::new(0) }; TABLE_LEN];
+static PERTURB_ON: AtomicBool = AtomicBool::new(false);
+static GATES_ON: AtomicBool = AtomicBool::new(false);
+static HOOK_HITS: AtomicU64 = AtomicU64::new(0);
+
+thread_local! {
+    /// (salt of this thread, number of perturbation points passed)
+    static PT: Cell<(u64, u64)> = const { Cell::new((0, 0)) };
+    /// thread index used by the gates (0 = not a gated thread)
+    static GATE_ID: Cell<usize> = const { Cell::new(0) };
+}
+
+fn mix(mut z: u64) -> u64 {
+    z = (z ^ (z >> 30)).wrapping_mul(0xBF58476D1CE4E5B9);
+    z = (z ^ (z >> 27)).wrapping_mul(0x94D049BB133111EB);
+    z ^ (z >> 31)
+}
+
+/// Turn order for forced schedules: `order[pos]` is the thread whose step is next.
+struct Turns {
+    order: Vec<usize>,
+    pos: usize,
+    abort: bool,
+}
+static TURNS: Mutex<Turns> = Mutex::new(Turns { order: vec![], pos: 0, abort: false });
+static TURN_CV: Condvar = Condvar::new();
+
+/// Blocks until it is `me`'s turn. Returns false when the schedule was aborted (watchdog).
+fn wait_turn(me: usize) -> bool {
+    let mut g = TURNS.lock().unwrap();
+    loop {
+        if g.abort {
+            return false;
+        }
+        if g.pos < g.order.len() && g.order[g.pos] == me {
+            return true;
+        }
+        let (ng, _) = TURN_CV.wait_timeout(g, Duration::from_millis(200)).unwrap();
+        g = ng;
+    }
+}
+
+fn end_turn() {
+    let mut g = TURNS.lock().unwrap();
+    g.pos += 1;
+    drop(g);
+    TURN_CV.notify_all();
+}
+
+thread_local! {
+    /// set while the current call of a gated thread still has to wait for its turn at the
+    /// "before-write-lock" point (assignments) — reads wait at the call boundary instead
+    static WAIT_AT_LOCK: Cell<bool> = const { Cell::new(false) };
+}
+
+fn perturb_cb(point: &'static str) {
+    HOOK_HITS.fetch_add(1, Ordering::Relaxed);
+    if GATES_ON.load(Ordering::Relaxed) {
+        let me = GATE_ID.with(Cell::get);
+        if me != 0 && point == "before-write-lock" && WAIT_AT_LOCK.with(Cell::get) {
+            WAIT_AT_LOCK.with(|w| w.set(false));
+            wait_turn(me);
+        }
+        return;
+    }
+    if !PERTURB_ON.load(Ordering::Relaxed) {
+        return;
+    }
+    let (salt, n) = PT.with(|c| {
+        let (s, n) = c.get();
+        c.set((s, n + 1));
+        (s, n)
+    });
+    let p = u64::from(point.as_bytes()[0] == b'w');
+    let idx = (mix(salt ^ (n * 2 + p).wrapping_mul(0x9E3779B97F4A7C15)) as usize) % TABLE_LEN;
+    match TABLE[idx].load(Ordering::Relaxed) {
+        1 => std::thread::yield_now(),
+        2 => {
+            for _ in 0..300 {
+                std::hint::spin_loop();
+            }
+        }
+        3 => std::thread::sleep(Duration::from_micros(20)),
+        _ => {}
+    }
+}
+
+/// Fills the perturbation table: `level` 0 = nothing, 1 = light, 2 = heavy.
+fn set_table(rng: &mut Rng, level: u8) {
+    for slot in TABLE.iter() {
+        let r = rng.below(100);
+        let a = match level {
+            0 => 0,
+            1 => {
+                if r < 10 { 1 } else if r < 14 { 2 } else { 0 }
+            }
+            _ => {
+                if r < 30 { 1 } else if r < 42 { 2 } else if r < 44 { 3 } else { 0 }
+            }
+        };
+        slot.store(a, Ordering::Relaxed);
+    }
+    PERTURB_ON.store(level > 0, Ordering::Relaxed);
+}
+
+fn watchdog() -> Duration {
+    let s = std::env::var("VERIF_CONC_WATCHDOG_S").ok().and_then(|s| s.parse().ok()).unwrap_or(30u64);
+    Duration::from_secs(s.max(20))
+}
+
+/// Runs the jobs on OS threads released together by a barrier. `None` = the threads did not all
+/// finish before the watchdog fired (they are left behind; the caller must wind up at once).
+fn run_threads<R: Send + 'static>(
+    jobs: Vec<Box<dyn FnOnce() -> R + Send>>,
+    salt: u64,
+) -> Option<Vec<R>> {
+    let n = jobs.len();
+    let barrier = Arc::new(Barrier::new(n));
+    let (tx, rx) = mpsc::channel();
+    for (i, job) in jobs.into_iter().enumerate() {
+        let tx = tx.clone();
+        let barrier = barrier.clone();
+        std::thread::Builder::new()
+            .stack_size(64 << 20)
+            .spawn(move || {
+                PT.with(|c| c.set((mix(salt.wrapping_add(i as u64 + 1)), 0)));
+                GATE_ID.with(|g| g.set(i + 1));
+                barrier.wait();
+                let r = job();
+                let _ = tx.send((i, r));
+            })
+            .expect("cannot spawn thread");
+    }
+    drop(tx);
+    let deadline = Instant::now() + watchdog();
+    let mut res: Vec<Option<R>> = (0..n).map(|_| None).collect();
+    for _ in 0..n {
+        let left = deadline.saturating_duration_since(Instant::now());
+        match rx.recv_timeout(left) {
+            Ok((i, r)) => res[i] = Some(r),
+            Err(_) => return None,
+        }
+    }
+    Some(res.into_iter().map(Option::unwrap).collect())
+}
+
+// ------------------------------------------------------------------------------------------
+// values, operations, program text
+// ------------------------------------------------------------------------------------------
+
+const DOM: i64 = 1 << 29;
+
+type Names = HashMap<usize, String>;
+
+fn cell_key(m: &Arc<Mut>) -> usize {
+    Arc::as_ptr(m) as usize
+}
+
+/// The specification's tagged value for an implementation value. Never takes a lock.
+fn val_json(v: &Variable, names: &Names) -> Value {
+    match v {
+        Variable::Int(n) if *n >= -DOM && *n < DOM => json!({"k": "int", "v": n}),
+        Variable::Int(n) => json!({"k": "big", "s": n.to_string()}),
+        Variable::Mut(m) => json!({"k": "cell", "c": names.get(&cell_key(m)).cloned().unwrap_or_else(|| "?".into())}),
+        Variable::String(s) => json!({"k": "str", "s": &**s}),
+        Variable::Bool(_) => json!({"k": "other", "s": "bool"}),
+        Variable::Float(_) => json!({"k": "other", "s": "float"}),
+        Variable::Void => json!({"k": "other", "s": "void"}),
+        _ => json!({"k": "other", "s": "compound"}),
+    }
+}
+
+fn int_text(n: i64) -> String {
+    if n < 0 { format!("(0-{})", -n) } else { n.to_string() }
+}
+
+fn rhs_text(v: &Value) -> String {
+    match v["k"].as_str().unwrap() {
+        "int" => int_text(v["v"].as_i64().unwrap()),
+        "cell" => v["c"].as_str().unwrap().to_string(),
+        other => panic!("rhs kind {other}"),
+    }
+}
+
+/// One operation of the specification (`Asg`, `Deref`, `Render`) as SimpleSL source text.
+fn op_text(op: &Value) -> String {
+    let c = op["c"].as_str().unwrap();
+    match op["k"].as_str().unwrap() {
+        "asg" => {
+            let o = op["op"].as_str().unwrap();
+            let o = if o == "=" { "=".to_string() } else { format!("{o}=") };
+            format!("{c} {o} {}", rhs_text(&op["rhs"]))
+        }
+        "deref" => format!("*{c}"),
+        "render" => format!("std.convert.to_string({c})"),
+        other => panic!("op kind {other}"),
+    }
+}
+
+fn prog_text(ops: &[Value]) -> String {
+    let parts: Vec<String> = ops.iter().map(op_text).collect();
+    if parts.len() == 1 { parts[0].clone() } else { format!("({})", parts.join(", ")) }
+}
+
+/// What one operation returned, in the specification's result shape.
+fn result_json(op_kind: &str, v: &Variable, names: &Names) -> Value {
+    if op_kind == "render" {
+        match v {
+            Variable::String(s) => json!({"k": "text", "s": &**s}),
+            other => json!({"k": "val", "v": val_json(other, names)}),
+        }
+    } else {
+        json!({"k": "val", "v": val_json(v, names)})
+    }
+}
+
+/// The thread outcome of a whole program (the specification's `ThreadOutcome`).
+fn thread_outcome(ops: &[Value], r: &Result<Result<Variable, simplesl::ExecError>, String>, names: &Names) -> Value {
+    match r {
+        Err(p) => json!([{"k": "panic", "msg": p}]),
+        Ok(Err(e)) => json!([{"k": "err", "e": format!("{e:?}")}]),
+        Ok(Ok(v)) => {
+            if ops.len() == 1 {
+                json!([result_json(ops[0]["k"].as_str().unwrap(), v, names)])
+            } else {
+                match v {
+                    Variable::Tuple(es) if es.len() == ops.len() => Value::Array(
+                        ops.iter().zip(es.iter()).map(|(o, e)| result_json(o["k"].as_str().unwrap(), e, names)).collect(),
+                    ),
+                    other => json!([{"k": "shape", "v": val_json(other, names)}]),
+                }
+            }
+        }
+    }
+}
+
+struct World {
+    interp: Interpreter<'static>,
+    cells: BTreeMap<String, Arc<Mut>>,
+    names: Names,
+}
+
+/// Cells are made by the language (`mut <type> <literal>`), then inserted into a host
+/// interpreter under their names, so that `Code::parse` embeds them into the parsed code.
+fn make_world(types: &Map<String, Value>, stdlib: bool) -> World {
+    let mut interp = if stdlib { Interpreter::with_stdlib() } else { Interpreter::without_stdlib() };
+    let mut cells = BTreeMap::new();
+    let mut names = Names::new();
+    for (name, ty) in types {
+        let text = format!("mut {} 0", ty.as_str().unwrap());
+        let v = Code::parse(&Interpreter::without_stdlib(), &text).expect("mut literal").exec().expect("mut exec");
+        let m = v.into_mut().expect("mut value");
+        names.insert(cell_key(&m), name.clone());
+        interp.insert(Arc::from(name.as_str()), Variable::Mut(m.clone()));
+        cells.insert(name.clone(), m);
+    }
+    World { interp, cells, names }
+}
+
+fn value_of(v: &Value, w: &World) -> Variable {
+    match v["k"].as_str().unwrap() {
+        "int" => Variable::Int(v["v"].as_i64().unwrap()),
+        "cell" => Variable::Mut(w.cells[v["c"].as_str().unwrap()].clone()),
+        other => panic!("value kind {other}"),
+    }
+}
+
+fn reset_cells(w: &World, init: &Map<String, Value>) {
+    for (name, v) in init {
+        *w.cells[name].variable.write().unwrap() = value_of(v, w);
+    }
+}
+
+fn final_vals(w: &World) -> Value {
+    let mut m = Map::new();
+    for (name, c) in &w.cells {
+        let v = c.variable.read().unwrap().clone();
+        m.insert(name.clone(), val_json(&v, &w.names));
+    }
+    Value::Object(m)
+}
+
+// ------------------------------------------------------------------------------------------
+// replay: spec -> impl
+// ------------------------------------------------------------------------------------------
+
+/// How a thread gets at the program: the shared `Code` itself, a shared closure over the
+/// cells, or a shared function that receives the cells as arguments.
+#[derive(Clone)]
+enum Shared {
+    Code(Arc<Code>),
+    Closure(Arc<Function>),
+    Params(Arc<Function>, Vec<Variable>),
+}
+
+impl Shared {
+    fn run(&self) -> Result<Result<Variable, simplesl::ExecError>, String> {
+        catch(|| match self {
+            Shared::Code(c) => c.exec(),
+            Shared::Closure(f) => f.clone().create_call(vec![]).expect("create_call").exec(),
+            Shared::Params(f, args) => f.clone().create_call(args.clone()).expect("create_call").exec(),
+        })
+    }
+}
+
+fn build_shared(w: &World, types: &Map<String, Value>, text: &str, route: usize) -> Result<Shared, String> {
+    let plain = Code::parse(&w.interp, text).map_err(|e| format!("parse error: {e} in {text}"))?;
+    if route == 0 {
+        return Ok(Shared::Code(Arc::new(plain)));
+    }
+    let ret = plain.return_type().to_string();
+    if route == 1 {
+        let src = format!("() -> {ret} {{ return {text} }}");
+        let f = Code::parse(&w.interp, &src).map_err(|e| format!("parse error: {e} in {src}"))?
+            .exec().map_err(|e| format!("exec error {e} in {src}"))?;
+        return Ok(Shared::Closure(f.into_function().map_err(|_| "not a function".to_string())?));
+    }
+    let params: Vec<String> = types.iter().map(|(n, t)| format!("{n}: mut {}", t.as_str().unwrap())).collect();
+    let src = format!("({}) -> {ret} {{ return {text} }}", params.join(", "));
+    let host = Interpreter::with_stdlib();
+    let f = Code::parse(&host, &src).map_err(|e| format!("parse error: {e} in {src}"))?
+        .exec().map_err(|e| format!("exec error {e} in {src}"))?;
+    let args = types.keys().map(|n| Variable::Mut(w.cells[n].clone())).collect();
+    Ok(Shared::Params(f.into_function().map_err(|_| "not a function".to_string())?, args))
+}
+
+fn replay(args: &[String]) -> Value {
+    let cases = read_ndjson(&args[0]);
+    let reps: usize = args.get(1).and_then(|s| s.parse().ok()).unwrap_or(4);
+    let mut rng = Rng::from_env(0xC16_0001);
+    verif::set_perturb(Some(perturb_cb));
+    let mut mismatches = vec![];
+    let mut samples = vec![];
+    let (mut runs, mut panics, mut multi, mut outcomes_seen, mut outcomes_allowed) = (0u64, 0u64, 0u64, 0u64, 0u64);
+    let mut deadlock = Value::Null;
+    'cases: for case in &cases {
+        let types = case["types"].as_object().unwrap();
+        let init = case["init"].as_object().unwrap();
+        let progs: Vec<Vec<Value>> = case["progs"].as_array().unwrap().iter().map(|p| p.as_array().unwrap().clone()).collect();
+        let allowed: Vec<&Value> = case["outcomes"].as_array().unwrap().iter().collect();
+        let w = make_world(types, true);
+        let texts: Vec<String> = progs.iter().map(|p| prog_text(p)).collect();
+        let mut seen: Vec<Value> = vec![];
+        for rep in 0..reps {
+            let route = rep % 3;
+            // identical programs share one parsed object
+            let mut by_text: HashMap<&str, Shared> = HashMap::new();
+            let mut shared = vec![];
+            for t in &texts {
+                if !by_text.contains_key(t.as_str()) {
+                    match build_shared(&w, types, t, route) {
+                        Ok(s) => {
+                            by_text.insert(t, s);
+                        }
+                        Err(e) => {
+                            mismatches.push(json!({"kind": "build", "case": case["id"], "config": case["config"], "route": route, "text": t, "error": e}));
+                            continue 'cases;
+                        }
+                    }
+                }
+                shared.push(by_text[t.as_str()].clone());
+            }
+            reset_cells(&w, init);
+            set_table(&mut rng, (rep % 3) as u8);
+            let jobs: Vec<Box<dyn FnOnce() -> _ + Send>> =
+                shared.into_iter().map(|s| Box::new(move || s.run()) as Box<dyn FnOnce() -> _ + Send>).collect();
+            runs += 1;
+            let Some(results) = run_threads(jobs, rng.next()) else {
+                deadlock = json!({"case": case["id"], "config": case["config"], "texts": texts, "init": case["init"], "route": route});
+                break 'cases;
+            };
+            let res: Vec<Value> = results.iter().zip(&progs).map(|(r, p)| thread_outcome(p, r, &w.names)).collect();
+            panics += results.iter().filter(|r| r.is_err()).count() as u64;
+            let got = json!({"val": final_vals(&w), "res": res});
+            if !allowed.iter().any(|a| **a == got) {
+                mismatches.push(json!({"kind": "outcome", "case": case["id"], "config": case["config"], "route": route,
+                    "texts": texts, "init": case["init"], "got": got, "allowed": case["outcomes"]}));
+            }
+            if !seen.contains(&got) {
+                seen.push(got);
+            }
+        }
+        outcomes_seen += seen.len() as u64;
+        outcomes_allowed += allowed.len() as u64;
+        if seen.len() > 1 {
+            multi += 1;
+            if samples.len() < 3 {
+                samples.push(json!({"config": case["config"], "threads": texts, "init": case["init"], "observed_outcomes": seen, "allowed": allowed.len()}));
+            }
+        }
+    }
+    set_table(&mut rng, 0);
+    json!({"cases": cases.len(), "runs": runs, "panics": panics, "cases_with_several_outcomes_observed": multi,
+        "outcomes_observed": outcomes_seen, "outcomes_allowed": outcomes_allowed,
+        "deadlock": deadlock, "mismatches": mismatches, "samples": samples,
+        "perturb_hits": HOOK_HITS.load(Ordering::Relaxed)})
+}
+
+// ------------------------------------------------------------------------------------------
+// forced schedules: spec -> impl, one serial order at a time
+// ------------------------------------------------------------------------------------------
+
+fn forced(args: &[String]) -> Value {
+    let cases = read_ndjson(&args[0]);
+    let stride: usize = args.get(1).and_then(|s| s.parse().ok()).unwrap_or(1).max(1);
+    verif::set_perturb(Some(perturb_cb));
+    GATES_ON.store(true, Ordering::Relaxed);
+    let mut mismatches = vec![];
+    let (mut runs, mut orders_total) = (0u64, 0u64);
+    let mut deadlock = Value::Null;
+    let mut samples = vec![];
+    'cases: for (ci, case) in cases.iter().enumerate() {
+        if ci % stride != 0 {
+            continue;
+        }
+        let Some(orders) = case.get("orders").and_then(Value::as_array) else { continue };
+        let types = case["types"].as_object().unwrap();
+        let init = case["init"].as_object().unwrap();
+        let progs: Vec<Vec<Value>> = case["progs"].as_array().unwrap().iter().map(|p| p.as_array().unwrap().clone()).collect();
+        let w = make_world(types, true);
+        // one parsed Code per distinct operation, shared by every thread that performs it
+        let mut codes: HashMap<String, Arc<Code>> = HashMap::new();
+        for p in &progs {
+            for o in p {
+                let t = op_text(o);
+                if !codes.contains_key(&t) {
+                    match Code::parse(&w.interp, &t) {
+                        Ok(c) => {
+                            codes.insert(t, Arc::new(c));
+                        }
+                        Err(e) => {
+                            mismatches.push(json!({"kind": "build", "case": case["id"], "text": t, "error": e.to_string()}));
+                            continue 'cases;
+                        }
+                    }
+                }
+            }
+        }
+        for ord in orders {
+            orders_total += 1;
+            let order: Vec<usize> = ord["ord"].as_array().unwrap().iter().map(|x| x.as_u64().unwrap() as usize).collect();
+            reset_cells(&w, init);
+            {
+                let mut g = TURNS.lock().unwrap();
+                g.order = order.clone();
+                g.pos = 0;
+                g.abort = false;
+            }
+            let jobs: Vec<Box<dyn FnOnce() -> Vec<Result<Result<Variable, simplesl::ExecError>, String>> + Send>> = progs
+                .iter()
+                .map(|p| {
+                    let plan: Vec<(bool, Arc<Code>)> =
+                        p.iter().map(|o| (o["k"] == "asg", codes[&op_text(o)].clone())).collect();
+                    Box::new(move || {
+                        let me = GATE_ID.with(Cell::get);
+                        let mut out = vec![];
+                        for (is_asg, code) in plan {
+                            if is_asg {
+                                // the call starts freely (target and value are evaluated
+                                // concurrently) and waits for its turn just before the lock
+                                WAIT_AT_LOCK.with(|w| w.set(true));
+                            } else if !wait_turn(me) {
+                                break;
+                            }
+                            let r = catch(|| code.exec());
+                            if WAIT_AT_LOCK.with(Cell::get) {
+                                // the hook point was never reached: not an assignment path
+                                WAIT_AT_LOCK.with(|w| w.set(false));
+                                wait_turn(me);
+                            }
+                            let failed = !matches!(r, Ok(Ok(_)));
+                            out.push(r);
+                            end_turn();
+                            if failed {
+                                break; // a failed operation ends the program (Code::exec semantics)
+                            }
+                        }
+                        out
+                    }) as Box<dyn FnOnce() -> _ + Send>
+                })
+                .collect();
+            runs += 1;
+            let Some(results) = run_threads(jobs, 0) else {
+                TURNS.lock().unwrap().abort = true;
+                TURN_CV.notify_all();
+                deadlock = json!({"case": case["id"], "config": case["config"], "order": order, "progs": case["progs"]});
+                break 'cases;
+            };
+            let res: Vec<Value> = results
+                .iter()
+                .zip(&progs)
+                .map(|(rs, p)| {
+                    if let Some(bad) = rs.iter().find(|r| !matches!(r, Ok(Ok(_)))) {
+                        return thread_outcome(&p[..1], bad, &w.names);
+                    }
+                    Value::Array(rs.iter().zip(p).map(|(r, o)| match r {
+                        Ok(Ok(v)) => result_json(o["k"].as_str().unwrap(), v, &w.names),
+                        _ => unreachable!(),
+                    }).collect())
+                })
+                .collect();
+            let got = json!({"val": final_vals(&w), "res": res});
+            if got != ord["out"] {
+                mismatches.push(json!({"kind": "forced", "case": case["id"], "config": case["config"], "order": order,
+                    "progs": case["progs"], "init": case["init"], "got": got, "expected": ord["out"]}));
+            } else if samples.len() < 2 && order.len() >= 3 {
+                samples.push(json!({"threads": progs.iter().map(|p| prog_text(p)).collect::<Vec<_>>(), "forced_order": order, "outcome": got}));
+            }
+        }
+    }
+    GATES_ON.store(false, Ordering::Relaxed);
+    json!({"cases": cases.len(), "orders": orders_total, "runs": runs, "deadlock": deadlock,
+        "mismatches": mismatches, "samples": samples})
+}
+
+// ------------------------------------------------------------------------------------------
+// record: impl -> spec
+// ------------------------------------------------------------------------------------------
+
+#[derive(Clone)]
+struct Planned {
+    cell: usize,         // index into CELL_NAMES
+    kind: &'static str,  // asg | deref | render
+    op: &'static str,    // "" for reads
+    rhs: i64,
+}
+
+const CELL_NAMES: [&str; 2] = ["c", "d"];
+
+/// Order-independent bound on what the content of a cell can become: every growing operation
+/// is dominated by b -> m*b + a (m >= 1, a >= 0) or by squaring; any order of the operations
+/// stays below (M*A)^(2^S).
+struct Budget {
+    a: f64,
+    m: f64,
+    s: u32,
+}
+
+impl Budget {
+    fn bound(&self) -> f64 {
+        (self.m * self.a).powi(1 << self.s)
+    }
+    fn try_add(&mut self, m: f64, a: f64, s: u32) -> bool {
+        let t = Budget { a: self.a + a, m: self.m * m, s: self.s + s };
+        if t.s <= 1 && t.bound() < (1u64 << 26) as f64 {
+            *self = t;
+            true
+        } else {
+            false
+        }
+    }
+}
+
+fn plan_mixed(rng: &mut Rng, budget: &mut [Budget], ncells: usize) -> Planned {
+    let cell = rng.below(ncells);
+    let b = &mut budget[cell];
+    let r = rng.below(100);
+    let small = |rng: &mut Rng, lo: i64, hi: i64| lo + rng.below((hi - lo + 1) as usize) as i64;
+    let p = |kind, op, rhs| Planned { cell, kind, op, rhs };
+    if r < 8 {
+        return p("deref", "", 0);
+    }
+    if r < 13 {
+        return p("render", "", 0);
+    }
+    if r < 22 {
+        // failing operands: the cell must stay as it was and the lock must be released
+        return match rng.below(7) {
+            0 => p("asg", "/", 0),
+            1 => p("asg", "%", 0),
+            2 => p("asg", "**", -1),
+            3 => p("asg", "<<", 64),
+            4 => p("asg", "<<", -1),
+            5 => p("asg", ">>", 64),
+            _ => p("asg", ">>", -3),
+        };
+    }
+    if r < 40 {
+        // never growing
+        return match rng.below(4) {
+            0 => {
+                let v = small(rng, 1, 4);
+                p("asg", "/", if rng.chance(1, 3) { -v } else { v })
+            }
+            1 => {
+                let v = small(rng, 2, 9);
+                p("asg", "%", if rng.chance(1, 3) { -v } else { v })
+            }
+            2 => p("asg", ">>", small(rng, 0, 3)),
+            _ => p("asg", "**", 1),
+        };
+    }
+    // growing operations, while the budget lasts
+    for _ in 0..4 {
+        let (op, rhs, m, a, s): (&'static str, i64, f64, f64, u32) = match rng.below(10) {
+            0 | 1 => {
+                let v = small(rng, -9, 9);
+                ("+", v, 1.0, v.abs() as f64, 0)
+            }
+            2 => {
+                let v = small(rng, -9, 9);
+                ("-", v, 1.0, v.abs() as f64, 0)
+            }
+            3 => {
+                let v = small(rng, -3, 3);
+                ("*", v, (v.abs() as f64).max(1.0), 0.0, 0)
+            }
+            4 => {
+                let k = small(rng, 0, 2);
+                ("<<", k, (1 << k) as f64, 0.0, 0)
+            }
+            5 => {
+                let v = small(rng, 0, 15);
+                ("|", v, 2.0, 2.0 * v as f64 + 2.0, 0)
+            }
+            6 => {
+                let v = small(rng, -8, 15);
+                ("^", v, 2.0, 2.0 * v.abs() as f64 + 2.0, 0)
+            }
+            7 => {
+                let v = small(rng, -8, 15);
+                ("&", v, 2.0, 2.0 * v.abs() as f64 + 2.0, 0)
+            }
+            8 => {
+                let v = small(rng, -20, 20);
+                ("=", v, 1.0, v.abs() as f64, 0)
+            }
+            _ => {
+                if rng.chance(1, 2) { ("**", 0, 1.0, 1.0, 0) } else { ("**", 2, 1.0, 0.0, 1) }
+            }
+        };
+        if b.try_add(m, a, s) {
+            return p("asg", op, rhs);
+        }
+    }
+    p("asg", "%", small(rng, 2, 9))
+}
+
+struct CallRec {
+    t: usize,
+    plan: Planned,
+    start: u64,
+    end: u64,
+    ret: Value,
+}
+
+struct WriteRec {
+    t: usize,
+    cell: String,
+    op: String,
+    old: Value,
+    rhs: Value,
+    new: Option<Value>,
+    seq: u64,
+}
+
+fn norm_op(op: &str) -> String {
+    if op == "=" { "=".into() } else { op.trim_end_matches('=').to_string() }
+}
+
+fn planned_op_json(p: &Planned) -> Value {
+    match p.kind {
+        "asg" => json!({"k": "asg", "c": CELL_NAMES[p.cell], "op": p.op, "rhs": {"k": "int", "v": p.rhs}}),
+        kind => json!({"k": kind, "c": CELL_NAMES[p.cell]}),
+    }
+}
+
+/// Shared, process-wide functions for the "function" route: `(x: mut int, v: int) -> int
+/// { return x op= v }` etc., parsed once and used by every thread of every history.
+fn op_functions() -> HashMap<String, Arc<Function>> {
+    let host = Interpreter::with_stdlib();
+    let mut m = HashMap::new();
+    let mut add = |key: &str, src: String| {
+        let f = Code::parse(&host, &src).unwrap_or_else(|e| panic!("{e}: {src}")).exec().unwrap();
+        m.insert(key.to_string(), f.into_function().ok().unwrap());
+    };
+    for op in ["=", "+", "-", "*", "/", "%", "**", "<<", ">>", "&", "|", "^"] {
+        let o = if op == "=" { "=".to_string() } else { format!("{op}=") };
+        add(op, format!("(x: mut int, v: int) -> int {{ return x {o} v }}"));
+    }
+    add("deref", "(x: mut int) -> int { return *x }".to_string());
+    add("render", "(x: mut int) -> string { return std.convert.to_string(x) }".to_string());
+    m
+}
+
+struct HistoryOut {
+    calls: Vec<CallRec>,
+    writes: Vec<WriteRec>,
+    init: Value,
+    fin: Value,
+}
+
+/// Runs one history: `plans[t]` is the sequence of calls of thread t.
+fn run_history(
+    plans: &[Vec<Planned>],
+    init: &[i64],
+    route: usize,
+    fns: &Arc<HashMap<String, Arc<Function>>>,
+    salt: u64,
+) -> Option<HistoryOut> {
+    let mut types = Map::new();
+    for n in CELL_NAMES {
+        types.insert(n.to_string(), json!("int"));
+    }
+    let w = make_world(&types, true);
+    for (i, n) in CELL_NAMES.iter().enumerate() {
+        *w.cells[*n].variable.write().unwrap() = Variable::Int(init[i]);
+    }
+    let init_json = final_vals(&w);
+    // route 0: one parsed Code per distinct operation, shared by all threads
+    let mut codes: HashMap<String, Arc<Code>> = HashMap::new();
+    if route == 0 {
+        for p in plans.iter().flatten() {
+            let text = op_text(&planned_op_json(p));
+            codes.entry(text.clone()).or_insert_with(|| Arc::new(Code::parse(&w.interp, &text).unwrap_or_else(|e| panic!("{e}: {text}"))));
+        }
+    }
+    let cells: Vec<Arc<Mut>> = CELL_NAMES.iter().map(|n| w.cells[*n].clone()).collect();
+    let names = Arc::new(w.names.clone());
+    let jobs: Vec<Box<dyn FnOnce() -> (Vec<CallRec>, Vec<WriteRec>) + Send>> = plans
+        .iter()
+        .enumerate()
+        .map(|(t, plan)| {
+            let plan = plan.clone();
+            let codes: Vec<Option<Arc<Code>>> =
+                plan.iter().map(|p| codes.get(&op_text(&planned_op_json(p))).cloned()).collect();
+            let cells = cells.clone();
+            let names = names.clone();
+            let fns = fns.clone();
+            Box::new(move || {
+                let buf: Rc<RefCell<Vec<WriteRec>>> = Rc::new(RefCell::new(vec![]));
+                let sink_buf = buf.clone();
+                let sink_names = names.clone();
+                verif::set_sink(
+                    Some(Box::new(move |ev| {
+                        if let Event::Write { cell, op, old, rhs, new, seq } = ev {
+                            sink_buf.borrow_mut().push(WriteRec {
+                                t: t + 1,
+                                cell: sink_names.get(&cell_key(&cell)).cloned().unwrap_or_else(|| "?".into()),
+                                op: norm_op(op),
+                                old: val_json(&old, &sink_names),
+                                rhs: val_json(&rhs, &sink_names),
+                                new: new.as_ref().map(|v| val_json(v, &sink_names)),
+                                seq,
+                            });
+                        }
+                    })),
+                    false,
+                );
+                let mut calls = vec![];
+                for (p, code) in plan.into_iter().zip(codes) {
+                    let start = verif::next_seq();
+                    let r = catch(|| match &code {
+                        Some(c) => c.exec(),
+                        None => {
+                            let cell = Variable::Mut(cells[p.cell].clone());
+                            let (key, args) = match p.kind {
+                                "asg" => (p.op, vec![cell, Variable::Int(p.rhs)]),
+                                kind => (kind, vec![cell]),
+                            };
+                            fns[key].clone().create_call(args).expect("create_call").exec()
+                        }
+                    });
+                    let end = verif::next_seq();
+                    let ret = match &r {
+                        Err(msg) => json!({"k": "panic", "msg": msg}),
+                        Ok(Err(e)) => json!({"k": "err", "e": format!("{e:?}")}),
+                        Ok(Ok(v)) => result_json(p.kind, v, &names),
+                    };
+                    calls.push(CallRec { t: t + 1, plan: p, start, end, ret });
+                }
+                verif::set_sink(None, false);
+                let writes = buf.borrow_mut().drain(..).collect();
+                (calls, writes)
+            }) as Box<dyn FnOnce() -> _ + Send>
+        })
+        .collect();
+    let results = run_threads(jobs, salt)?;
+    let mut calls = vec![];
+    let mut writes = vec![];
+    for (c, wr) in results {
+        calls.extend(c);
+        writes.extend(wr);
+    }
+    Some(HistoryOut { calls, writes, init: init_json, fin: final_vals(&w) })
+}
+
+fn record(args: &[String]) -> Value {
+    let dir = &args[0];
+    let num = |i: usize, d: usize| args.get(i).and_then(|s| s.parse().ok()).unwrap_or(d);
+    let (n_small, small_t, small_k) = (num(1, 30), num(2, 4), num(3, 5));
+    let (n_big, big_t, big_k) = (num(4, 6), num(5, 8), num(6, 100));
+    let mut rng = Rng::from_env(0xC16_0002);
+    verif::set_perturb(Some(perturb_cb));
+    let fns = Arc::new(op_functions());
+    let mut trace = std::io::BufWriter::new(std::fs::File::create(format!("{dir}/conc_trace.ndjson")).unwrap());
+    let mut lin = std::io::BufWriter::new(std::fs::File::create(format!("{dir}/conc_lin.ndjson")).unwrap());
+    let mut line_no = 0usize;
+    let (mut n_calls, mut n_writes, mut n_panics, mut n_events) = (0u64, 0u64, 0u64, 0u64);
+    let mut deadlock = Value::Null;
+    let mut samples = vec![];
+    let mut contended = 0u64; // calls whose [start, end] window overlaps another thread's call on the same cell
+    let mut kinds: BTreeMap<String, u64> = BTreeMap::new();
+    let total = n_small + n_big;
+    let mut h = 0usize;
+    while h < total {
+        h += 1;
+        let big = h > n_small;
+        let (t_n, k_n) = if big { (big_t, big_k) } else { (2 + rng.below(small_t.max(2) - 1), 1 + rng.below(small_k.max(1))) };
+        let kind = match h % 4 {
+            0 => "inc",
+            1 => "additive",
+            2 => "mixed",
+            _ => "mixed2",
+        };
+        let ncells = if kind == "mixed2" { 2 } else { 1 };
+        let init: Vec<i64> = match kind {
+            "inc" => vec![if rng.chance(1, 2) { 0 } else { rng.below(50) as i64 - 25 }, 0],
+            _ => vec![rng.below(41) as i64 - 20, rng.below(41) as i64 - 20],
+        };
+        let mut budget: Vec<Budget> = init.iter().map(|v| Budget { a: v.abs() as f64 + 1.0, m: 1.0, s: 0 }).collect();
+        let plans: Vec<Vec<Planned>> = (0..t_n)
+            .map(|_| {
+                (0..k_n)
+                    .map(|_| match kind {
+                        "inc" => Planned { cell: 0, kind: "asg", op: "+", rhs: 1 },
+                        "additive" => {
+                            let v = rng.below(19) as i64 - 9;
+                            Planned { cell: 0, kind: "asg", op: if rng.chance(1, 2) { "+" } else { "-" }, rhs: v }
+                        }
+                        _ => plan_mixed(&mut rng, &mut budget, ncells),
+                    })
+                    .collect()
+            })
+            .collect();
+        let route = (h / 4) % 2;
+        set_table(&mut rng, if h % 3 == 0 { 1 } else { 2 });
+        let Some(out) = run_history(&plans, &init, route, &fns, rng.next()) else {
+            deadlock = json!({"history": h, "kind": kind, "threads": t_n, "calls_per_thread": k_n, "route": route});
+            break;
+        };
+        *kinds.entry(kind.to_string()).or_insert(0) += 1;
+        n_calls += out.calls.len() as u64;
+        n_writes += out.writes.len() as u64;
+        n_panics += out.calls.iter().filter(|c| c.ret["k"] == "panic").count() as u64;
+        // overlap statistics (evidence that the histories are really concurrent)
+        {
+            let mut spans: Vec<(u64, u64, usize, usize)> = out.calls.iter().map(|c| (c.start, c.end, c.t, c.plan.cell)).collect();
+            spans.sort();
+            let mut active: Vec<(u64, usize, usize)> = vec![];
+            for (s, e, t, cell) in spans {
+                active.retain(|(ae, _, _)| *ae > s);
+                if active.iter().any(|(_, at, ac)| *at != t && *ac == cell) {
+                    contended += 1;
+                }
+                active.push((e, t, cell));
+            }
+        }
+        // --- Trace_Conc input: header, then start/write/end events merged by sequence number
+        let mut evs: Vec<(u64, Value)> = vec![];
+        for c in &out.calls {
+            let o = planned_op_json(&c.plan);
+            evs.push((c.start, json!({"ev": "start", "h": h, "t": c.t, "k": c.plan.kind, "c": CELL_NAMES[c.plan.cell],
+                "op": c.plan.op, "rhs": {"k": "int", "v": c.plan.rhs}, "seq": c.start})));
+            evs.push((c.end, json!({"ev": "end", "h": h, "t": c.t, "ret": c.ret, "seq": c.end})));
+            let _ = o;
+        }
+        for wr in &out.writes {
+            evs.push((wr.seq, json!({"ev": "write", "h": h, "t": wr.t, "c": wr.cell, "op": wr.op, "old": wr.old, "rhs": wr.rhs,
+                "new": wr.new.clone().unwrap_or(json!({"k": "none"})), "seq": wr.seq})));
+        }
+        evs.sort_by_key(|(s, _)| *s);
+        line_no += 1;
+        let header = json!({"ev": "hist", "h": h, "at": line_no, "n": evs.len() + 1, "kind": kind, "route": route,
+            "threads": t_n, "init": out.init});
+        writeln!(trace, "{header}").unwrap();
+        for (_, e) in &evs {
+            writeln!(trace, "{e}").unwrap();
+            line_no += 1;
+        }
+        line_no += 1;
+        writeln!(trace, "{}", json!({"ev": "fin", "h": h, "final": out.fin, "calls": out.calls.len()})).unwrap();
+        n_events += evs.len() as u64 + 2;
+        // --- Trace_ConcLin input: the calls only (nothing that comes from the hooks)
+        let calls: Vec<Value> = out.calls.iter().map(|c| {
+            json!({"t": c.t, "op": planned_op_json(&c.plan), "ret": c.ret, "s": c.start, "e": c.end})
+        }).collect();
+        writeln!(lin, "{}", json!({"h": h, "kind": kind, "search": out.calls.len() <= 40, "init": out.init, "final": out.fin, "calls": calls})).unwrap();
+        if samples.len() < 2 && !big && out.calls.len() >= 4 && out.writes.len() >= 3 {
+            samples.push(json!({"history": h, "kind": kind, "route": if route == 0 { "shared Code per operation" } else { "shared Function called with the cell" },
+                "threads": t_n, "init": out.init, "final": out.fin,
+                "calls": out.calls.iter().take(6).map(|c| json!({"t": c.t, "text": op_text(&planned_op_json(&c.plan)), "ret": c.ret, "window": [c.start, c.end]})).collect::<Vec<_>>()}));
+        }
+    }
+    trace.flush().unwrap();
+    lin.flush().unwrap();
+    set_table(&mut rng, 0);
+    json!({"histories": h, "events": n_events, "calls": n_calls, "writes": n_writes, "panics": n_panics,
+        "contended_calls": contended, "kinds": kinds, "deadlock": deadlock, "samples": samples,
+        "perturb_hits": HOOK_HITS.load(Ordering::Relaxed)})
+}
+
+// ------------------------------------------------------------------------------------------
+// solo: one parsed Code, many threads, no shared cell
+// ------------------------------------------------------------------------------------------
+
+fn solo_corpus(rng: &mut Rng) -> Vec<String> {
+    let mut v: Vec<String> = [
+        // iterator machinery backed by process-wide lazily initialised helper functions
+        "a := [1, 2, 3, 4, 5, 6]; a @ (x: int) -> int { return x * x }",
+        "a := [1, 2, 3, 4, 5, 6]; a ? (x: int) -> bool { return x % 2 == 0 }",
+        "a := [1, 2, 3, 4]; (a~ $+, a~ $*)",
+        "a := [1, 2, 3, 4]; a~ @ (x: int) -> int { return x + 1 } $]",
+        "a := [3, 1, 2]; a $ 0 (acc: int, x: int) -> int { return acc * 10 + x }",
+        "a := [true, false, true]; (a~ $&&, a~ $||)",
+        "a := [6, 3, 5]; (a~ $&, a~ $|)",
+        "a := [1, 2, 3, 4, 5]; a \\ (x: int) -> bool { return x > 2 }",
+        // private cells, loops, closures
+        "x := mut int 0; i := mut int 0; while *i < 50 { x += *i; i += 1; }; *x",
+        "x := mut int 1; f := () -> int { return x *= 2 }; (f(), f(), f(), *x)",
+        "c := mut [int] []; i := mut int 0; while *i < 5 { c += [*i]; i += 1; }; *c",
+        "fib := (n: int) -> int { if n < 2 { return n } return fib(n - 1) + fib(n - 2) }; fib(12)",
+        "s := mut string \"\"; i := mut int 0; while *i < 4 { s += \"ab\"; i += 1; }; *s",
+        "x := mut any 0; x = x; std.convert.to_string(x)",
+        "m := mut int 7; n := mut mut int m; (*n) += 1; (*m, std.convert.to_string(n))",
+        "(std.len([1, 2, 3]), std.convert.to_string(12), std.convert.to_int(2.5))",
+        "x := mut int 5; (x /= 2, x %= 2, x <<= 3, x >>= 1, x **= 2, x &= 12, x |= 3, x ^= 5, x -= 1, x = 9)",
+        "x := mut int 5; (x += 1, x /= 0, x += 1)",
+    ]
+    .iter()
+    .map(|s| s.to_string())
+    .collect();
+    // seeded arithmetic on a private cell
+    for _ in 0..12 {
+        let init = rng.below(21) as i64 - 10;
+        let mut parts = vec![];
+        for _ in 0..(2 + rng.below(6)) {
+            let (op, rhs) = match rng.below(8) {
+                0 => ("+=", rng.below(19) as i64 - 9),
+                1 => ("-=", rng.below(19) as i64 - 9),
+                2 => ("*=", rng.below(7) as i64 - 3),
+                3 => ("/=", rng.below(5) as i64 + 1),
+                4 => ("%=", rng.below(7) as i64 + 2),
+                5 => ("&=", rng.below(24) as i64 - 8),
+                6 => ("|=", rng.below(16) as i64),
+                _ => ("^=", rng.below(24) as i64 - 8),
+            };
+            parts.push(format!("x {op} {}", int_text(rhs)));
+        }
+        v.push(format!("x := mut int {}; ({}, *x)", int_text(init), parts.join(", ")));
+    }
+    v
+}
+
+fn show(r: &Result<Result<Variable, simplesl::ExecError>, String>) -> String {
+    match r {
+        Ok(Ok(v)) => format!("{v:?}"),
+        Ok(Err(e)) => format!("ERROR {e:?}"),
+        Err(p) => format!("PANIC {p}"),
+    }
+}
+
+fn solo(args: &[String]) -> Value {
+    let threads: usize = args.first().and_then(|s| s.parse().ok()).unwrap_or(8);
+    let reps: usize = args.get(1).and_then(|s| s.parse().ok()).unwrap_or(20);
+    let mut rng = Rng::from_env(0xC16_0003);
+    let corpus = solo_corpus(&mut rng);
+    let host = Interpreter::with_stdlib();
+    let mut mismatches = vec![];
+    let mut runs = 0u64;
+    let mut deadlock = Value::Null;
+    let mut samples = vec![];
+    let mut rejected = 0u64;
+    // all programs are parsed once; every thread runs every program `reps` times, starting at a
+    // different program so that different programs run side by side, and the very first use of
+    // the lazily initialised helpers happens concurrently
+    let codes: Vec<(String, Arc<Code>)> = corpus
+        .iter()
+        .filter_map(|text| match catch(|| Code::parse(&host, text)) {
+            Ok(Ok(c)) => Some((text.clone(), Arc::new(c))),
+            Ok(Err(e)) => {
+                rejected += 1;
+                mismatches.push(json!({"kind": "solo-parse", "text": text, "error": e.to_string()}));
+                None
+            }
+            Err(p) => {
+                rejected += 1;
+                mismatches.push(json!({"kind": "solo-parse", "text": text, "panic": p}));
+                None
+            }
+        })
+        .collect();
+    let shared = Arc::new(codes);
+    let jobs: Vec<Box<dyn FnOnce() -> Vec<(usize, String)> + Send>> = (0..threads)
+        .map(|t| {
+            let shared = shared.clone();
+            Box::new(move || {
+                let n = shared.len();
+                let mut out = vec![];
+                for r in 0..reps {
+                    for i in 0..n {
+                        let idx = (i + t * 3 + r) % n;
+                        out.push((idx, show(&catch(|| shared[idx].1.exec()))));
+                    }
+                }
+                out
+            }) as Box<dyn FnOnce() -> _ + Send>
+        })
+        .collect();
+    let results = run_threads(jobs, 7);
+    match results {
+        None => deadlock = json!({"what": "solo corpus", "threads": threads}),
+        Some(results) => {
+            // the sequential reference: the same parsed Code, run alone, afterwards
+            let reference: Vec<String> = shared.iter().map(|(_, c)| show(&catch(|| c.exec()))).collect();
+            for (t, rs) in results.iter().enumerate() {
+                for (idx, got) in rs {
+                    runs += 1;
+                    if *got != reference[*idx] {
+                        mismatches.push(json!({"kind": "solo", "text": shared[*idx].0, "thread": t + 1,
+                            "concurrent": got, "sequential": reference[*idx]}));
+                    }
+                }
+            }
+            for (i, (text, _)) in shared.iter().enumerate().take(2) {
+                samples.push(json!({"text": text, "sequential": reference[i], "concurrent_runs": threads * reps}));
+            }
+        }
+    }
+    mismatches.truncate(50);
+    json!({"programs": shared.len(), "threads": threads, "runs": runs, "rejected": rejected, "deadlock": deadlock,
+        "mismatches": mismatches, "samples": samples})
+}
+
+// ------------------------------------------------------------------------------------------
+// render: the F17 scenario and its relatives, under the watchdog
+// ------------------------------------------------------------------------------------------
+
+fn render(args: &[String]) -> Value {
+    let millis: u64 = args.first().and_then(|s| s.parse().ok()).unwrap_or(1500);
+    let mut types = Map::new();
+    types.insert("s".to_string(), json!("any"));
+    types.insert("c".to_string(), json!("int"));
+    let w = make_world(&types, true);
+    // s := mut any 0; s = s   (the cell contains itself)
+    Code::parse(&w.interp, "s = s").unwrap().exec().unwrap();
+    let assign = Arc::new(Code::parse(&w.interp, "s = s").unwrap());
+    let to_string = Arc::new(Code::parse(&w.interp, "std.convert.to_string(s)").unwrap());
+    let tuple = Arc::new(Code::parse(&w.interp, "std.convert.to_string((s, c, s))").unwrap());
+    let incr = Arc::new(Code::parse(&w.interp, "c += 1").unwrap());
+    let cell = Variable::Mut(w.cells["s"].clone());
+    let expected = "mut any mut any mut any mut any mut any mut any ..".to_string();
+    let stop = Arc::new(AtomicBool::new(false));
+    let mut jobs: Vec<Box<dyn FnOnce() -> (u64, Vec<String>) + Send>> = vec![];
+    // two writers, three renderers (in-language, host Display, host Debug), one mixed
+    for which in 0..6usize {
+        let stop = stop.clone();
+        let (assign, to_string, tuple, incr, cell, expected) =
+            (assign.clone(), to_string.clone(), tuple.clone(), incr.clone(), cell.clone(), expected.clone());
+        jobs.push(Box::new(move || {
+            let mut n = 0u64;
+            let mut bad = vec![];
+            let t0 = Instant::now();
+            while !stop.load(Ordering::Relaxed) && t0.elapsed() < Duration::from_millis(millis) {
+                n += 1;
+                let r = match which {
+                    0 | 1 => catch(|| assign.exec().map(|_| String::new())),
+                    2 => catch(|| to_string.exec().map(|v| v.to_string())),
+                    3 => catch(|| Ok(format!("{cell}"))),
+                    4 => catch(|| Ok(format!("{cell:?}"))),
+                    _ => catch(|| {
+                        incr.exec()?;
+                        tuple.exec().map(|_| String::new())
+                    }),
+                };
+                match r {
+                    Ok(Ok(s)) => {
+                        if (2..=4).contains(&which) && s != expected && bad.len() < 3 {
+                            bad.push(format!("rendered {s:?}"));
+                        }
+                    }
+                    Ok(Err(e)) => {
+                        if bad.len() < 3 {
+                            bad.push(format!("error {e:?}"));
+                        }
+                    }
+                    Err(p) => {
+                        if bad.len() < 3 {
+                            bad.push(format!("panic {p}"));
+                        }
+                    }
+                }
+            }
+            (n, bad)
+        }));
+    }
+    match run_threads(jobs, 11) {
+        None => json!({"deadlock": {"scenario": "s := mut any 0; s = s; threads 1-2 loop `s = s`, threads 3-5 render s, thread 6 renders (s, c, s) and increments c"},
+            "mismatches": [], "iterations": 0}),
+        Some(rs) => {
+            let mism: Vec<Value> = rs.iter().enumerate().flat_map(|(t, (_, bad))| bad.iter().map(move |b| json!({"kind": "render", "thread": t + 1, "what": b}))).collect();
+            json!({"deadlock": Value::Null, "iterations": rs.iter().map(|(n, _)| *n).sum::<u64>(),
+                "per_thread": rs.iter().map(|(n, _)| *n).collect::<Vec<_>>(), "mismatches": mism, "expected": expected})
+        }
+    }
+}
+
+pub fn run(args: &[String]) -> Value {
+    let _ = HashSet::<u8>::new();
+    match args.first().map(String::as_str) {
+        Some("replay") => replay(&args[1..]),
+        Some("forced") => forced(&args[1..]),
+        Some("record") => record(&args[1..]),
+        Some("solo") => solo(&args[1..]),
+        Some("render") => render(&args[1..]),
+        _ => json!({"error": "usage: vh conc replay|forced|record|solo|render ..."}),
+    }
 }
